@@ -84,3 +84,17 @@ package js_parser
 //@   requires p != nil
 //@   ensures exported-symbol-is-chain-end: !old(inDom(p.namedExports, alias)) ==>
 //@       inDom(p.namedExports, alias) && p.symbols[p.namedExports[alias].Ref.InnerIndex].Link == ast.InvalidRef
+
+// ----------------------------------------------------------------------------------------------
+// C15: "names that are observable from outside are never renamed". hoistSymbols pins a `var` hoisted past a
+// `with` statement (MustNotBeRenamed: the name may denote a property of the with-object). Hoisting can also
+// MERGE the symbol into an existing outer one by setting Symbol.Link, after which only the outer symbol is
+// looked at by the renamers. Every link written here must therefore carry the pin along: if the linked-away
+// hoisted symbol is pinned, the symbol it now stands for is pinned as well (or is unbound, which is never
+// renamed).
+//@ func (*parser).hoistSymbols
+//@   arith int
+//@   prop C15
+//@   opt scenario with_var_merge_pin
+//@   site pin-survives-link: store Symbol.Link requires target.Kind.IsHoisted() && target.Flags.Has(ast.MustNotBeRenamed) ==>
+//@       p.symbols[value.InnerIndex].Flags.Has(ast.MustNotBeRenamed) || p.symbols[value.InnerIndex].Kind == ast.SymbolUnbound
